@@ -50,6 +50,38 @@ def _run_one(args):
         return {"name": cname, "harness_error": f"{type(e).__name__}: {e}", "trace": traceback.format_exc(limit=8), "wall": time.time() - t0}
 
 
+def _run_parallel(pid, tier, jobs, njobs, case_timeout):
+    """one fresh interpreter per case (z3 + fork from a threaded parent deadlocks)"""
+    import shutil
+    import subprocess
+    import tempfile
+    from concurrent.futures import ThreadPoolExecutor
+    if not case_timeout:
+        case_timeout = 900 if tier == "quick" else 5400
+    tmpd = tempfile.mkdtemp(prefix="symgeo_")
+
+    def one(job):
+        _, cname, _, seed = job
+        out = os.path.join(tmpd, cname.replace("/", "_") + ".json")
+        cmd = [sys.executable, "-m", "symgeo.driver", pid, "--tier", tier, "--case", cname, "--worker", out]
+        env = dict(os.environ, VERIF_SEED=str(seed))
+        t0 = time.time()
+        try:
+            p = subprocess.run(cmd, cwd=VERIF, env=env, capture_output=True, text=True, timeout=case_timeout)
+            if os.path.exists(out):
+                return json.load(open(out))
+            return {"name": cname, "harness_error": f"worker exit {p.returncode}", "trace": (p.stderr or "")[-3000:], "wall": time.time() - t0}
+        except subprocess.TimeoutExpired:
+            return {"name": cname, "paths": 0, "obligations": 0, "wall": time.time() - t0,
+                    "inconclusive": [{"case": cname, "obligation": "*", "why": f"case wall-time limit {case_timeout}s exceeded"}]}
+
+    try:
+        with ThreadPoolExecutor(max_workers=njobs) as ex:
+            return list(ex.map(one, jobs))
+    finally:
+        shutil.rmtree(tmpd, ignore_errors=True)
+
+
 def load_known():
     p = os.path.join(VERIF, "known_findings.json")
     if not os.path.exists(p):
@@ -74,6 +106,8 @@ def main(argv=None):
     ap.add_argument("--case")
     ap.add_argument("--jobs", type=int, default=int(os.environ.get("VERIF_JOBS", "16")))
     ap.add_argument("--no-evidence", action="store_true")
+    ap.add_argument("--worker", help="internal: run one case and dump its result as JSON to this file")
+    ap.add_argument("--case-timeout", type=int, default=int(os.environ.get("VERIF_CASE_TIMEOUT", "0") or 0))
     a = ap.parse_args(argv)
     seed = int(os.environ.get("VERIF_SEED", "0") or 0)
     pid = a.pid
@@ -86,13 +120,14 @@ def main(argv=None):
     cases = [c for c in mod.cases(a.tier, seed) if a.tier in c.tiers and (a.case is None or c.name == a.case)]
     jobs = [(pid, c.name, a.tier, seed) for c in cases]
     results = []
+    if a.worker:
+        r = _run_one(jobs[0]) if jobs else {"name": a.case, "harness_error": "case not found in this tier"}
+        json.dump(r, open(a.worker, "w"), default=str)
+        return 0
     if a.jobs <= 1 or len(jobs) <= 1:
         results = [_run_one(j) for j in jobs]
     else:
-        ctx = mp.get_context("fork")
-        with ctx.Pool(min(a.jobs, len(jobs)), maxtasksperchild=1) as pool:
-            for r in pool.imap_unordered(_run_one, jobs, chunksize=1):
-                results.append(r)
+        results = _run_parallel(pid, a.tier, jobs, a.jobs, a.case_timeout)
     results.sort(key=lambda r: r["name"])
     known = load_known()
     code = EXIT_OK
